@@ -1,23 +1,28 @@
 """C03 - alignment puts all timeseries on the prescribed common index, values intact.
 
 MC   spec/MC_Sync.tla: the clauses of the property on the law-level operators of spec/Series.tla.
+     spec/SyncLaw.tla: column policies ij / oj / lj / rj / explicit set / none; dict containers with their class
+     and their keys in insertion order.
 S2C  TLC enumerates collections (pairs / triples of small series, frames, bare arrays in several
-     container shapes) with the outcome expected for every join policy x fill method x column
-     policy; each is replayed through df_index, df_reindex, df_sync and a presync-decorated recorder.
+     container shapes - dicts with non-sorted keys, nested, OrderedDict / pyg Dict - and triples of frames over
+     the column-set shapes) with the outcome expected for every join policy x fill method x column
+     policy; each is replayed through df_index, df_reindex, df_sync and a presync-decorated recorder
+     (named parameters; **kwargs, which shows the order in which the keywords arrive).
 C2S  seeded random collections (<= 6 timeseries over 30 timestamps, frames with 1-3 columns, nested
-     lists / dicts, non-timeseries members; separately bare arrays of lengths 0-6) are run through
-     the same public calls and the log is validated by spec/Trace_Sync.tla.
+     lists / dicts of four classes with shuffled keys, non-timeseries members; separately bare arrays of
+     lengths 0-6) are run through the same public calls and the log is validated by spec/Trace_Sync.tla.
 Python only renders, calls, projects and compares with ==.
 """
 import json
 import warnings
 import pandas as pd
-from harness.x_series import (Registry, build, proj, outcome, norm, collapse, leaves, nested_multi, index_of, NLEAVES)
+from harness.x_series import (Registry, build_c, proj_c, outcome, collapse, leaves, nested_multi, index_of, NLEAVES)
 
 warnings.simplefilter('ignore')
 
 POS = ['p1', 'p2', 'p3', 'p4', 'p5', 'p6', 'p7', 'p8']
 KWS = ['x', 'y', 'z', 'u', 'w', 'v']
+CLASSES = ['dict', 'dict', 'odict', 'Dict', 'dictattr']
 
 
 def recorders():
@@ -28,7 +33,10 @@ def recorders():
 
     def rec_kw(x=None, y=None, z=None, u=None, w=None, v=None):
         calls.append(dict(x=x, y=y, z=z, u=u, w=w, v=v))
-    return calls, rec_pos, rec_kw
+
+    def rec_var(**kwargs):          # the keywords in the order in which they arrive
+        calls.append(kwargs)
+    return calls, rec_pos, rec_kw, rec_var
 
 
 def join_arg(pol, form=0):
@@ -43,14 +51,28 @@ def join_arg(pol, form=0):
     return idx
 
 
+SPELL = {'ij': ['ij', 'inner', 'i'], 'oj': ['oj', 'outer', 'o'], 'lj': ['lj', 'left', 'l'], 'rj': ['rj', 'right', 'r']}
+
+
+def col_arg(cp, form=0):
+    """the Python spelling of a column policy (a record of SyncLaw.tla)"""
+    if cp['how'] == 'none':
+        return None
+    if cp['how'] == 'ex':
+        return pd.Index(list(cp['c']))      # the column set explicitly supplied (an Index is the spelling the API accepts)
+    return SPELL[cp['how']][(form // 3) % 3]
+
+
 def call(api, tree, pol, m, cols, form=0, rng=None):
     """one public call on a freshly built collection -> observation"""
     import pyg_base as pg
     reg = Registry()
-    obj = build(tree, reg, rng, int_series=True)
+    proj = proj_c
+    obj = build_c(tree, reg, rng, int_series=True, colorder=form)
     method = None if m == 'none' else m
-    columns = None if cols == 'none' else cols
+    columns = col_arg(cols, form)
     calls = None
+    var_kw = False
     if api == 'sync':
         err, res = outcome(lambda: pg.df_sync(obj, join_arg(pol, 0 if pol['how'] == 'ex' else form), method, columns))
     elif api == 'reindex':
@@ -58,7 +80,7 @@ def call(api, tree, pol, m, cols, form=0, rng=None):
     elif api == 'index':
         err, res = outcome(lambda: pg.df_index(obj, join_arg(pol, form)))
     elif api == 'presync':
-        calls, rec_pos, rec_kw = recorders()
+        calls, rec_pos, rec_kw, rec_var = recorders()
         kw = dict(index=join_arg(pol, 0 if pol['how'] == 'ex' else form), method=method, columns=False if columns is None else columns)
         if tree['k'] == 'l':
             n = len(obj)
@@ -66,7 +88,8 @@ def call(api, tree, pol, m, cols, form=0, rng=None):
             f = pg.presync(rec_pos, **kw)
             err, res = outcome(lambda: f(*obj[:npos], **{POS[i]: obj[i] for i in range(npos, n)}))
         else:
-            f = pg.presync(rec_kw, **kw)
+            var_kw = form % 3 == 2 or any(k not in KWS for k in tree['keys'])
+            f = pg.presync(rec_var if var_kw else rec_kw, **kw)
             err, res = outcome(lambda: f(**obj))
     else:
         raise ValueError(api)
@@ -89,8 +112,10 @@ def call(api, tree, pol, m, cols, form=0, rng=None):
         for c in calls:
             if tree['k'] == 'l':
                 out.append({'k': 'l', 'items': [proj(c[POS[i]], reg) for i in range(len(tree['items']))]})
+            elif var_kw:        # the keyword arguments as received, in the order received (they are not a container of a class)
+                out.append({'k': 'd', 'cls': tree['cls'], 'keys': list(c.keys()), 'items': [proj(v, reg) for v in c.values()]})
             else:
-                out.append({'k': 'd', 'keys': list(tree['keys']), 'items': [proj(c[k], reg) for k in tree['keys']]})
+                out.append({'k': 'd', 'cls': tree['cls'], 'keys': list(tree['keys']), 'items': [proj(c[k], reg) for k in tree['keys']]})
         o['out'] = {'kind': 'calls', 'calls': out}
     else:
         o['out'] = {'kind': 'val', 'v': proj(res, reg)}
@@ -102,11 +127,16 @@ def kind_of(tree):
     return 'frames' if 'f' in ks else 'series' if 's' in ks else 'arrays' if 'a' in ks else 'plain'
 
 
+def nodes(x):
+    return [x] + ([n for i in x['items'] for n in nodes(i)] if x['k'] in ('l', 't', 'd') else [])
+
+
 def case_key(o, want=None):
     """the matchable description of a failing case"""
     tree = o['tree']
-    c = {'api': o['api'], 'kind': kind_of(tree), 'how': o['pol']['how'], 'method': o['m'], 'cols': o['cols'],
+    c = {'api': o['api'], 'kind': kind_of(tree), 'how': o['pol']['how'], 'method': o['m'], 'cols': o['cols']['how'], 'colpol': o['cols'],
          'nested': nested_multi(tree), 'raised': o['out'].get('cls', ''), 'form': o['form'],
+         'dict_classes': sorted({x['cls'] for x in nodes(tree) if x['k'] == 'd'}),
          'empty_frame_filled': o['m'] != 'none' and any(l['k'] == 'f' and not l['t'] for l in leaves(tree)),
          'tree': tree, 'pol': o['pol']}
     if c['kind'] == 'arrays' and want is not None and want.get('k') == 'len':
@@ -142,11 +172,11 @@ def s2c(ctx, report, cases, budget):
         tree, e = cases[ci]['tree'], cases[ci]['exp'][ei]
         pol, m, cols = e['pol'], e['m'], e['cols']
         kind = kind_of(tree)
-        want = [norm(w) for w in e['sync']]
+        want = e['sync']                     # as printed: dict keys in their order, containers with their class
         emptied = kind == 'arrays' and e['index'].get('n') == 0      # the arrays are expected to end with no rows
         only_reindex = kind == 'arrays' and pol['how'] == 'ex'      # an explicit length is df_reindex's business only
         apis = [] if only_reindex else ['sync']
-        if cols == 'none' or kind != 'frames':
+        if cols['how'] == 'none' or kind != 'frames':
             apis.append('reindex')          # the index only
         if kind != 'frames' and not only_reindex:
             apis.append('presync')          # one call with the synchronised arguments
@@ -164,14 +194,14 @@ def s2c(ctx, report, cases, budget):
                 if out['v'] != e['index']:
                     report('joint_index', case_key(o, e['index']), {'expected': e['index'], 'observed': out['v']})
             elif api == 'presync':
-                got = [norm(collapse(c)) for c in out['calls']]
+                got = [collapse(c) for c in out['calls']]
                 if len(got) != 1 or got[0] not in [collapse(w) for w in want]:
                     report('presync_array_not_emptied' if emptied else 'presync_arguments', case_key(o, e['index']),
                            {'expected_one_call_with': e['sync'], 'observed': out['calls']})
             else:
-                if norm(out['v']) not in want:
+                if out['v'] not in want:
                     report('array_not_emptied' if emptied else 'aligned', case_key(o, e['index']), {'expected_one_of': e['sync'], 'observed': out['v']})
-        if want[0] != norm(tree):
+        if want[0] != tree:
             ctx.note(('s2c', ci, ei))
         if n % 1499 == 0:
             ctx.sample({'s2c_case': {'tree': tree, 'expect': e}})
@@ -234,16 +264,26 @@ def rand_tree(rng, members, top_dict_keys=None):
                 if rng.random() < 0.5:
                     out.append({"k": "l", "items": sub})
                 else:
-                    keys = rng.sample(['k1', 'k2', 'k3', 'zz', 'a b'], len(sub))
-                    out.append({"k": "d", "keys": keys, "items": sub})
+                    keys = rng.sample(['k1', 'k2', 'k3', 'zz', 'a b'], len(sub))       # in any order: the order is part of the container
+                    out.append({"k": "d", "cls": rng.choice(CLASSES), "keys": keys, "items": sub})
                 i += n
             else:
                 out.append(items[i]); i += 1
         return out
     items = group(members, 0)[:6]
     if rng.random() < 0.4:
-        return {"k": "d", "keys": rng.sample(KWS, len(items)), "items": items}
+        return {"k": "d", "cls": rng.choice(CLASSES), "keys": rng.sample(KWS, len(items)), "items": items}
     return {"k": "l", "items": items}
+
+
+def rand_cols(rng):
+    """a column policy: the four joins, none, or an explicit set (possibly with a column nobody has, possibly a single one)"""
+    r = rng.random()
+    if r < 0.7:
+        return {"how": rng.choice(["ij", "oj", "lj", "rj"]), "c": []}
+    if r < 0.82:
+        return {"how": "none", "c": []}
+    return {"how": "ex", "c": sorted(rng.sample(["a", "b", "c", "d", "e"], rng.choice([1, 2, 2, 3])))}
 
 
 def rand_pol(rng, T, arrays=False, nmax=6):
@@ -272,7 +312,7 @@ def c2s(ctx, report, n):
             members.insert(rng.randint(0, len(members)), {"k": "x", "id": rng.randrange(NLEAVES)})
         tree = rand_tree(rng, members)
         m = rng.choice(["none", "ffill", "bfill"])
-        cols = rng.choice(["ij", "oj", "ij", "oj", "none"])
+        cols = rand_cols(rng)
         explicit_len = 'n' in pol
         if i % 25 == 7:         # df_reindex of one bare timeseries (not a collection: df_reindex only)
             bare = [x for x in members if x['k'] in ('s', 'f')]
@@ -296,7 +336,7 @@ def c2s(ctx, report, n):
 def replay(ctx, body):
     """./check C03 --replay <file>: re-run one recorded case and let Trace_Sync judge it"""
     c = body['case']
-    o = call(c['api'], c['tree'], c['pol'], c['method'], c['cols'], form=c.get('form', 0))
+    o = call(c['api'], c['tree'], c['pol'], c['method'], c['colpol'], form=c.get('form', 0))
     bad = ctx.validate('Trace_Sync', [o])
     print(json.dumps({'observed': o['out'], 'verdict': bad[0][1] if bad else 'explained by the specification'})[:3000])
     return 1 if bad else 0
@@ -313,11 +353,13 @@ def run(ctx):
         ctx.mc('MC_Sync', 'MC_Sync_quick.cfg')
         s2c(ctx, report, ctx.generate('MC_Sync', 'MC_Sync_gen_quick.cfg'), 2500)
         s2c(ctx, report, ctx.generate('MC_Sync', 'MC_Sync_gen_frames.cfg'), 1000)
+        s2c(ctx, report, ctx.generate('MC_Sync', 'MC_Sync_gen_cols.cfg'), 700)
         c2s(ctx, report, 450)
     else:
         ctx.mc('MC_Sync', 'MC_Sync_thorough.cfg')
         s2c(ctx, report, ctx.generate('MC_Sync', 'MC_Sync_gen_quick.cfg'), 25000)
         s2c(ctx, report, ctx.generate('MC_Sync', 'MC_Sync_gen_frames.cfg'), 0)
+        s2c(ctx, report, ctx.generate('MC_Sync', 'MC_Sync_gen_cols.cfg'), 0)
         s2c(ctx, report, ctx.generate('MC_Sync', 'MC_Sync_gen_thorough.cfg'), 30000)
         c2s(ctx, report, 6000)
     ctx.extra['violation_signatures'] = report.summary()
